@@ -18,6 +18,10 @@ def main():
     for o in r['verifier_output']:
         print('--- verifier output ---')
         print(o.get('rendered') or o.get('message'))
+    if r.get('replay_cmd'):
+        print('--- re-running the bounded stand-in against the real code ---')
+        p = subprocess.run(r['replay_cmd'], shell=True, env=dict(os.environ, CARGO_NET_OFFLINE='true'))
+        sys.exit(1 if p.returncode == 1 else 0)
     wf = os.path.join(VERIF, 'replay')
     if r['property'] in ('C01', 'C02', 'C04', 'C07', 'C08', 'C15', 'C16', 'C18'):
         print('--- witness finder: scripted-peer scenarios against the real Worker (replay crate) ---')
